@@ -126,3 +126,10 @@ Theorem tj_reachable_from_source :
                          "crop_xoffset_set"; "crop_yoffset"; "crop_yoffset_set"; "force_grayscale"; "perfect";
                          "slow_hflip"; "transform"; "trim"]%string.
 Proof. repeat split; vm_compute; reflexivity. Qed.
+
+(* every exit of tj3Transform / tjTransform taken after jpeg_read_header passes through `bailout:`,
+   which aborts the decompressor (so the next call reads ITS OWN source: tj3Transform re-reads the
+   header iff global_state <= DSTATE_INHEADER) *)
+Theorem tj_errpaths_from_source :
+  gen_tj_errpaths = [("tj3Transform", 0%nat, true, 1%nat); ("tjTransform", 0%nat, true, 1%nat)]%string.
+Proof. vm_compute. reflexivity. Qed.
